@@ -787,6 +787,13 @@ func gen(r *vlib.R, n int, tier string, emit func(string)) {
 			budget--
 		}
 	}
+	// what the handler behind edns sees after Materialize (decoded, normalized request + ECS marker)
+	emit("mz new")
+	for i := 0; i < 80+n/200; i++ {
+		labels := []string{mixCase(r, vlib.Pick(r, []string{"www", "a", "mail"})), vlib.Pick(r, []string{"example", "EXAMPLE"}), "test"}
+		p := genPacket(r, labels, vlib.Pick(r, []uint16{1, 28, 16, 255}), vlib.Pick(r, []uint16{1, 1, 3}), r.Chance(1, 4))
+		emit(fmt.Sprintf("mz run proto=%s pkt=%s", vlib.Pick(r, []string{"udp", "tcp"}), vlib.Hex(p.b)))
+	}
 	// hostsfile: every kind of entry x qtype x letter case, reverse names in both spellings
 	emit("hs new")
 	for i := 0; i < 60+n/300; i++ {
